@@ -15,6 +15,7 @@ pub mod c10;
 pub mod c11;
 pub mod c12;
 pub mod c13;
+pub mod c16;
 
 pub fn run(id: &str, tier: Tier, seed: u64) -> Option<i32> {
     Some(match id {
@@ -30,6 +31,7 @@ pub fn run(id: &str, tier: Tier, seed: u64) -> Option<i32> {
         "C11" => c11::run(tier, seed),
         "C12" => c12::run(tier, seed),
         "C13" => c13::run(tier, seed),
+        "C16" => c16::run(tier, seed),
         _ => return None,
     })
 }
@@ -49,6 +51,7 @@ pub fn replay(prop: &str, case: &serde_json::Value) -> Result<u64, String> {
             }
             c10::replay(case)
         }
+        "c16-history" => c16::replay(case),
         _ => Err(format!("no replay handler for property {prop} case kind {:?}", case["kind"])),
     }
 }
